@@ -74,6 +74,9 @@ def check_extrema(emd, x, mode, pad, par, lpo, mpo, rec):
     if par:
         ok = np.allclose(mid_l, iloc, rtol=0, atol=1e-9) and np.allclose(mid_m, imag, rtol=1e-9, atol=1e-9) and \
             np.all(np.abs(mid_l - np.round(iloc)) <= 1.0 + 1e-9)
+        if not ok and mid_l.shape == iloc.shape and \
+                refmodel.rounding_sensitive(lambda: refmodel.find_extrema(x, mode, True)[0]) > 1e-10:
+            raise Discard('parabolic refinement of a near-flat extremum: the vertex is decided by rounding')
     else:
         ok = np.array_equal(mid_l, iloc) and np.array_equal(mid_m, imag)
     if not ok:
